@@ -8,7 +8,7 @@
 #       joins: queueing / reserving: i-th tuple = i-th message of each port, key_matching: equal keys, each message used once, number of tuples);
 #   real nodes fed by 3 external putters, observed at a serial sink, validated by TLC (TraceFlow).
 import os, re, json, vlib, flowlib
-SCEN = ['fifo', 'seq0', 'seq1', 'seq2', 'seq3', 'limit1', 'limit2', 'limitL1', 'limitL2', 'limitD2', 'limitD3', 'limitD2s', 'joinq', 'joinr', 'joink', 'joinkd', 'prio', 'reserve', 'reserve2', 'ow', 'wo', 'split', 'indexer']
+SCEN = ['fifo', 'seq0', 'seq1', 'seq2', 'seq3', 'limit1', 'limit2', 'limitL1', 'limitL2', 'limitD2', 'limitD3', 'limitD2s', 'joinq', 'joinr', 'joink', 'joinkd', 'joinkd2', 'prio', 'reserve', 'reserve2', 'ow', 'wo', 'split', 'indexer']
 
 
 def ring_schedules(cfg, tag):
